@@ -66,7 +66,7 @@ CONFIGS = [
     # traversal and queries on every shape and its obscured variants (C15)
     cfg("query_q", [["build"], ["elideset", "compressone", "observe"], ["observe"]], nreg=1, maxsize=14, maxt=2,
         inv=("WellFormedInv", "DeclaredDigestHonest", "RevealKeepsDigest", "C15Laws"),
-        shapes="ShUpTo(%s, 5) \\cup NodeSubjectNodes(%s, 9) \\cup Decorated(%s) \\cup DeepDecorated(%s) \\cup Nodes3(%s)" % (B3, B2, B2, B2, B2)),
+        shapes="ShUpTo(%s, 5) \\cup NodeSubjectNodes(%s, 9) \\cup Decorated(%s) \\cup DeepDecorated(%s) \\cup Nodes3(%s) \\cup WrapNodes(%s)" % (B3, B2, B2, B2, B2, B2)),
     # the decoder on every single structural mutation of valid encodings (C06)
     cfg("decode_q", [["build"], ["elideset", "compressone", "decodewire", "codec"], ["decodewire", "codec"]], nreg=1, maxsize=14, maxt=1,
         inv=("WellFormedInv", "C05RoundTrip"), props=("C06Prop",),
@@ -97,6 +97,10 @@ CONFIGS = [
     cfg("recipient_q", [["build"], ["recipient_enc"], ["recipient_add", "addassertion", "recipient_dec", "decorate", "elideset"], ["recipient_dec"]],
         atoms=("a1",), nreg=1, maxsize=30, maxt=1, inv=("WellFormedInv",), props=("C10Prop",),
         shapes="ShUpTo(%s, 3) \\cup {e \\in Sh(%s, 5) : IsNode(e)} \\cup NodeSubjectNodes({Leaf(V(\"a1\"))}, 9) \\cup Decorated({Leaf(V(\"a1\"))})" % (B1, B1)),
+    # obscuring before encrypting to recipients: a node whose subject is already compressed / elided, or with hidden assertions (R7C10-m2)
+    cfg("recipient_q2", [["build"], ["elideset", "compress"], ["recipient_enc"], ["recipient_dec"]],
+        atoms=("a1",), nreg=1, maxsize=30, maxt=1, inv=("WellFormedInv",), props=("C10Prop",),
+        shapes="ShUpTo(%s, 2) \\cup {e \\in Sh(%s, 5) : IsNode(e)} \\cup NodeSubjectNodes({Leaf(V(\"a1\"))}, 9)" % (B1, B1)),
     cfg("recipient_t", [["build"], ["recipient_enc"], ["recipient_add", "addassertion", "recipient_dec", "decorate", "elideset"],
                         ["recipient_add", "recipient_dec", "elideset", "codec"], ["recipient_dec"]],
         atoms=("a1",), nreg=1, maxsize=40, maxt=1, inv=("WellFormedInv",), props=("C10Prop",),
